@@ -80,9 +80,18 @@ Definition status_code (s : status) : Z := match s with Running => 0 | Aborted =
 Definition model_outs (k : aud_case) : list (list out) * status :=
   let '(os, _, stt) := run_audition (k_cfg k) (k_events k) in (os, stt).
 
+(** When the audit loop returns early (an evaluation error), its deferred
+    final round runs at once: the harness cannot tell the outputs of the failing
+    round from those of that final round, so aborted histories are compared
+    flattened (and loosely, the final round's time being the wall clock). *)
 Definition case_model_bad (k : aud_case) : bool :=
   let '(os, stt) := model_outs k in
   let loose := false :: map is_final (k_events k) in
+  if Z.eqb (status_code stt) 1 then
+    negb (list_eqb (iout_eqb true) (flat_map (fun r => flat_map coll_of r) os) (List.concat (k_coll k))
+          && list_eqb (iout_eqb true) (flat_map (fun r => flat_map judge_of r) os) (List.concat (k_judge k))
+          && Z.eqb 1 (k_status k))
+  else
   negb (rounds_eqb loose (map (fun r => flat_map coll_of r) os) (k_coll k)
         && rounds_eqb loose (map (fun r => flat_map judge_of r) os) (k_judge k)
         && Z.eqb (status_code stt) (k_status k)).
